@@ -752,3 +752,121 @@ Proof.
   intros H; injection H as _ _ <-. apply take_n_length in E. rewrite skipn_length in E. cbn. lia.
 Qed.
 
+
+(* no function of this file ever answers CFuel (hence EvalScript / VerifyScript never answer
+   VOutOfFuel, and by construction never VCrash) *)
+Definition nf {A} (r : cres A) : Prop := r <> CFuel.
+Lemma nf_ok {A} (a : A) : nf (COk a). Proof. discriminate. Qed.
+Lemma nf_err {A} e : nf (@CErr A e). Proof. discriminate. Qed.
+Lemma nf_bind {A B} (m : cres A) (f : A -> cres B) : nf m -> (forall a, nf (f a)) -> nf (cbind m f).
+Proof. destruct m; cbn; intros H1 H2; [apply H2 | discriminate | exfalso; apply H1; reflexivity]. Qed.
+
+Ltac nf_step :=
+  match goal with
+  | |- nf (COk _) => apply nf_ok
+  | |- nf (CErr _) => apply nf_err
+  | H : nf ?x |- nf ?x => exact H
+  | |- nf (cbind _ _) => apply nf_bind; [|intros]
+  | |- nf (if ?c then _ else _) => destruct c
+  | |- nf (match ?x with _ => _ end) => destruct x
+  end.
+Ltac nf_tac := cbv zeta; repeat (nf_step; cbv zeta).
+
+Lemma nf_script_num mn sz v : nf (script_num mn sz v).
+Proof. unfold script_num. nf_tac. Qed.
+Lemma nf_check_sig_enc order flags sig : nf (check_signature_encoding order flags sig).
+Proof. unfold check_signature_encoding. nf_tac. Qed.
+Lemma nf_check_pk_enc flags sv k : nf (check_pubkey_encoding flags sv k).
+Proof. unfold check_pubkey_encoding. nf_tac. Qed.
+Global Hint Resolve nf_script_num nf_check_sig_enc nf_check_pk_enc : nfdb.
+Ltac nf_auto := cbv zeta; repeat (first [nf_step | solve [auto with nfdb]]; cbv zeta).
+
+Lemma nf_on_stack s f : (forall st, nf (f st)) -> nf (on_stack s f).
+Proof. intros H. unfold on_stack. nf_auto. Qed.
+Lemma nf_un_num mn f st : nf (un_num mn f st).
+Proof. unfold un_num. nf_auto. Qed.
+Lemma nf_bin_num mn f st : nf (bin_num mn f st).
+Proof. unfold bin_num. nf_auto. Qed.
+Lemma nf_hash_op h st : nf (hash_op h st).
+Proof. unfold hash_op. nf_auto. Qed.
+Lemma nf_pick_roll mn roll st : nf (op_pick_roll mn roll st).
+Proof. unfold op_pick_roll. nf_auto. Qed.
+Lemma nf_checksig o flags sv v s : nf (op_checksig o flags sv v s).
+Proof. unfold op_checksig. nf_auto. Qed.
+Lemma nf_cms_loop o flags sv code keys : forall sigs, nf (cms_loop o flags sv code sigs keys).
+Proof.
+  induction keys as [|k keys IH]; intros sigs; destruct sigs as [|sg sigs]; cbn [cms_loop]; nf_auto; apply IH.
+Qed.
+Global Hint Resolve nf_un_num nf_bin_num nf_hash_op nf_pick_roll nf_checksig nf_cms_loop : nfdb.
+Lemma nf_checkmultisig o flags sv mn v s : nf (op_checkmultisig o flags sv mn v s).
+Proof. unfold op_checkmultisig. nf_auto. Qed.
+Lemma nf_nop_upgradable flags s : nf (op_nop_upgradable flags s).
+Proof. unfold op_nop_upgradable. nf_auto. Qed.
+Global Hint Resolve nf_checkmultisig nf_nop_upgradable : nfdb.
+Lemma nf_cltv flags mn ctx s : nf (op_cltv flags mn ctx s).
+Proof. unfold op_cltv. nf_auto. Qed.
+Lemma nf_csv flags mn ctx s : nf (op_csv flags mn ctx s).
+Proof. unfold op_csv. nf_auto. Qed.
+Lemma nf_if flags sv notif fx s : nf (op_if flags sv notif fx s).
+Proof. unfold op_if. nf_auto. Qed.
+Global Hint Resolve nf_cltv nf_csv nf_if : nfdb.
+
+Lemma nf_exec_op o flags sv ctx op rest fx s : nf (exec_op o flags sv ctx op rest fx s).
+Proof.
+  unfold exec_op. cbv zeta.
+  destruct op; try apply nf_ok; try apply nf_err; auto with nfdb;
+    try (apply nf_on_stack; intros st; auto with nfdb; nf_auto).
+  all: nf_auto.
+Qed.
+Global Hint Resolve nf_exec_op : nfdb.
+
+Lemma nf_step_ o flags sv ctx op data rest s : nf (step o flags sv ctx op data rest s).
+Proof. unfold step. nf_auto. Qed.
+
+Lemma eval_loop_fuel_ok o flags sv ctx fuel : forall rest s,
+  (length rest <= fuel)%nat -> nf (eval_loop o flags sv ctx fuel rest s).
+Proof.
+  induction fuel as [|f IH]; intros rest s Hl.
+  - destruct rest; cbn in *; [apply nf_ok | lia].
+  - destruct rest as [|b t]; [apply nf_ok|].
+    cbn [eval_loop].
+    destruct (get_op (b :: t)) as [[[op d] r]|] eqn:E; [|apply nf_err].
+    apply get_op_shrinks in E.
+    apply nf_bind; [apply nf_step_|]. intros s'. apply IH. cbn in *. lia.
+Qed.
+
+Lemma nf_eval_script_e o flags sv ctx script st : nf (eval_script_e o flags sv ctx script st).
+Proof.
+  unfold eval_script_e. destruct (MAX_SCRIPT_SIZE <? len script); [apply nf_err|].
+  apply nf_bind; [apply eval_loop_fuel_ok; lia|]. intros s. nf_auto.
+Qed.
+Global Hint Resolve nf_eval_script_e : nfdb.
+
+Lemma nf_verify_witness_program o flags ctx wit ver prog : nf (verify_witness_program o flags ctx wit ver prog).
+Proof. unfold verify_witness_program. nf_auto. Qed.
+Global Hint Resolve nf_verify_witness_program : nfdb.
+
+Lemma nf_top_true st : nf (top_true st).
+Proof. unfold top_true. nf_auto. Qed.
+Global Hint Resolve nf_top_true : nfdb.
+
+Lemma nf_VerifyScriptE o sp : nf (VerifyScriptE o sp).
+Proof. unfold VerifyScriptE. nf_auto. Qed.
+
+(* the public statements *)
+Definition vres_clean {A} (r : vres A) : Prop :=
+  match r with VOk _ | VFail => True | VCrash _ | VOutOfFuel => False end.
+
+Theorem C03spec_eval_terminates : forall o flags sv ctx script st,
+  vres_clean (EvalScript o flags sv ctx script st).
+Proof.
+  intros. unfold EvalScript, EvalScriptE.
+  pose proof (nf_eval_script_e o flags sv ctx script (rev st)) as H.
+  destruct (eval_script_e o flags sv ctx script (rev st)); cbn; auto.
+Qed.
+
+Theorem C03spec_verify_terminates : forall o sp, vres_clean (VerifyScript o sp).
+Proof.
+  intros. unfold VerifyScript. pose proof (nf_VerifyScriptE o sp) as H.
+  destruct (VerifyScriptE o sp); cbn; auto.
+Qed.
